@@ -222,7 +222,10 @@ CHECKS = {
                  "inside both compiled switches; multiply_table for all 196 dtype pairs; old_path_uninit/_garbage document "
                  "why the guard exists; product_fully_written (the cmultiply set-or-accumulate loop leaves no cell unwritten, "
                  "for every number of terms); dtype_is_promotion_of_all / old_dtype_depended_on_option: the inferred coefficient "
-                 "type is numpy's promotion over every supplied column, whether or not the column survives cleaning (D31). "
+                 "type is numpy's promotion over every supplied column, whether or not the column survives cleaning (D31); numpy's n-ary "
+                 "promotion itself is in the model (promoteAll, a transcription of PyArray_PromoteDTypeSequence: promoteAll_pair, "
+                 "promoteAll_triple_symmetric over all 2744 triples, promotion_is_not_a_fold) and compared with numpy.result_type on "
+                 "every pair, triple and random longer tuples per run. "
                  "The run covers all dtypes x requests x 7 constructors, the inferred type of mixed columns, all ordered pairs x "
                  "{+,-,*} incl. broadcasting, **, shape functions, and zero-survivor results, with every fresh ndpoly buffer "
                  "pre-filled with a poison byte.",
